@@ -89,6 +89,7 @@ def from_bytes(name, hay, term=T_LF):
 # the terminator); letters are unique per line of the converted twin
 NUL_SPECS = [
     ("n_mid", b"a\nb\0c\nd\n"),
+    ("n_mid2", b"a\0b\nc\n"),
     ("n_first", b"\0b\n"),
     ("n_last", b"a\nb\0"),
     ("n_double", b"a\0\0c\n"),
@@ -105,6 +106,9 @@ def nul_term_shapes():
 def nul_shapes():
     out = []
     for n, hay in NUL_SPECS:
+        # convention the harness matchers rely on: line i of the converted twin starts with letter 'a'+i (or is empty)
+        for i, ln in enumerate(hay.replace(b"\0", b"\n").split(b"\n")):
+            assert ln == b"" or ln[0] == ord("a") + i, (n, i, ln)
         out.append((from_bytes(n, hay), from_bytes(n + "_conv", hay.replace(b"\0", b"\n"))))
     return out
 
